@@ -539,3 +539,110 @@ func pureCallee(name string) bool {
 	}
 	return false
 }
+
+// CellOfFreeVar: the allocation a captured variable is bound to, followed outwards through
+// enclosing function literals that merely pass the capture on.
+func CellOfFreeVar(fv *ssa.FreeVar, depth int) *ssa.Alloc {
+	fn := fv.Parent()
+	if fn == nil || fn.Parent() == nil || depth > 4 {
+		return nil
+	}
+	idx := -1
+	for k, q := range fn.FreeVars {
+		if q == fv {
+			idx = k
+		}
+	}
+	var out *ssa.Alloc
+	for _, b := range fn.Parent().Blocks {
+		for _, i := range b.Instrs {
+			if mc, isMC := i.(*ssa.MakeClosure); isMC && mc.Fn == ssa.Value(fn) && idx >= 0 && idx < len(mc.Bindings) {
+				switch bd := mc.Bindings[idx].(type) {
+				case *ssa.Alloc:
+					out = bd
+				case *ssa.FreeVar:
+					out = CellOfFreeVar(bd, depth+1)
+				}
+			}
+		}
+	}
+	return out
+}
+
+var initOnlyCache = map[*ssa.Alloc]ssa.Value{}
+var initOnlyDone = map[*ssa.Alloc]bool{}
+
+// InitOnlyCell: the heap cell of a named local that is captured by a function literal, written
+// exactly once — by the initialisation that follows its declaration in the same block — and
+// otherwise only read (in the declaring function and every literal nested in it). Such a variable
+// is an alias of its initialiser; the initialiser is returned. nil for anything else (a parameter
+// spill, a variable assigned anywhere else, a variable whose address escapes otherwise).
+func InitOnlyCell(a *ssa.Alloc) ssa.Value {
+	if initOnlyDone[a] {
+		return initOnlyCache[a]
+	}
+	initOnlyDone[a] = true
+	if !a.Heap || a.Comment == "" || a.Comment == "complit" || a.Comment == "varargs" || a.Comment == "makeslice" || a.Referrers() == nil {
+		return nil
+	}
+	if _, isStruct := a.Type().(*types.Pointer).Elem().Underlying().(*types.Struct); isStruct {
+		return nil // field-wise initialisation
+	}
+	if _, isArr := a.Type().(*types.Pointer).Elem().Underlying().(*types.Array); isArr {
+		return nil
+	}
+	var init *ssa.Store
+	captured := false
+	for _, r := range *a.Referrers() {
+		switch x := r.(type) {
+		case *ssa.Store:
+			if x.Addr != ssa.Value(a) || init != nil {
+				return nil
+			}
+			init = x
+		case *ssa.MakeClosure:
+			captured = true
+		case *ssa.UnOp:
+			if x.Op != token.MUL {
+				return nil
+			}
+		case *ssa.DebugRef:
+		default:
+			return nil // address taken in some other way
+		}
+	}
+	if init == nil || !captured || init.Block() != a.Block() {
+		return nil
+	}
+	// no literal that captures the cell writes it
+	okAll := true
+	var scan func(f *ssa.Function)
+	scan = func(f *ssa.Function) {
+		for _, g := range f.AnonFuncs {
+			for _, fv := range g.FreeVars {
+				if CellOfFreeVar(fv, 0) != a || fv.Referrers() == nil {
+					continue
+				}
+				for _, r := range *fv.Referrers() {
+					switch x := r.(type) {
+					case *ssa.UnOp:
+						if x.Op != token.MUL {
+							okAll = false
+						}
+					case *ssa.MakeClosure, *ssa.DebugRef:
+					default:
+						okAll = false
+					}
+				}
+			}
+			scan(g)
+		}
+	}
+	scan(a.Parent())
+	if !okAll {
+		return nil
+	}
+	// the initialiser must not itself read the cell
+	initOnlyCache[a] = init.Val
+	return init.Val
+}
